@@ -464,7 +464,7 @@ pub fn c15(ctx: &mut Ctx) {
             vec![0xFFF0_FFFF, 0x0000_0000, 0x0001_8000, 0x7FFF_0101, 0x8000_FFFE],
             vec![],
         ];
-        ctx.bound("iterator histories", format!("Nack::entries over 5 word lists, Fir::entries and Sli::lost_macroblocks over 0..=5 entries with and without a trailing partial entry: all call sequences of length <= {} over {{next, nth(0), nth(1), nth(2), nth(7), take(2).count()}} x 4 endings", depth));
+        ctx.bound("iterator histories", format!("Nack::entries over 5 word lists, Fir::entries and Sli::lost_macroblocks over 0..=5 entries with and without a trailing partial entry: all call sequences of length <= {} over {{next, nth(0), nth(1), nth(2), nth(7), take(2).count()}} x 10 endings, size_hint() after every call", depth));
         let nl = nack_lists.len() as u64;
         ctx.run_space("iterator-histories", nl + 12 + 12, move |idx, l| {
             l.evals += 1;
